@@ -60,7 +60,9 @@ impl Number for i32 {
         lhs.checked_add(rhs)
     }
     fn checked_mul(lhs: Self, rhs: i32) -> Option<Self> {
-        lhs.checked_mul(rhs)
+        // TeX.2021.105 (mult_integers): the magnitude of the product is at most 2^31-1,
+        // so -2^31 is an overflow too.
+        lhs.checked_mul(rhs).filter(|p| *p != i32::MIN)
     }
     fn wrapping_mul(lhs: Self, rhs: i32) -> Self {
         lhs.wrapping_mul(rhs)
